@@ -129,6 +129,9 @@ def apply(obj, act, args, n, fresh_other=None):
         else:
             raise ValueError(w)
         return obj + other
+    if act == "ConcatSlices":  # two views of the SAME object, in the order given
+        a, b, c, d = args
+        return obj[a:b] + obj[c:d]
     if act == "ToType":
         return obj.to_type(array_align=args[0])
     if act == "ToRna":
